@@ -18,6 +18,11 @@ def run(ctx):
     C.run_tlc(ctx, "DeeplinkGen", "DeeplinkGen3.cfg" if thorough else "DeeplinkGen.cfg", workers=1,
               env={"VERIF_OUT": out}, timeout=600, tag="generate")
     ncases = sum(1 for _ in open(out))
+    # 4a. the first resolutions of a process, from 96 goroutines released together (several fresh processes)
+    crep = C.run_harness_phase(ctx, ["deeplinkconc", "-seed", str(ctx.seed), "-children", "1500" if thorough else "300"],
+                               "process-died:first-use-under-concurrency", "concurrent first use", timeout=900)
+    for d in (crep or {}).get("disagreements", []):
+        ctx.disagreement(d["sig"], d["detail"], d["case"])
     # 4. replay into deeplinks.Resolve built from the working tree
     r = C.run_harness(ctx, ["deeplink", "-cases", out, "-seed", str(ctx.seed),
                             "-concretisations", "4" if thorough else "2",
@@ -32,7 +37,7 @@ def run(ctx):
         "rule": "every link shape of DeeplinkDef!Links (5 schemes x 9 hosts x 2 ports x paths of 0..%d segments over 6 "
                 "segment classes x query x fragment) enumerated by TLC with its declared outcome, rendered to seeded "
                 "concrete strings, Resolve run 20 times each (map order); distinct = distinct concrete strings; plus "
-                "unstructured strings for totality" % (3 if thorough else 2),
+                "unstructured strings for totality; one goroutine per CPU making the first calls of a fresh process at the same instant (300 / 1500 fresh processes)" % (3 if thorough else 2),
         "samples": rep["samples"], "exhaustive": True, "shapes": ncases,
         "disagreement_signatures": rep["sig_counts"],
     }, ["net/url parsing and strings.ToLower are trusted", "segment classes stand for their seeded concretisations"])
